@@ -5,6 +5,7 @@ import (
 	"go/ast"
 	"go/token"
 	"go/types"
+	"sort"
 	"strings"
 
 	"verif/sa/core"
@@ -266,10 +267,46 @@ func ruleCC7() Rule {
 					})
 					return has
 				}
+				// `if !l.cancelled() { close(l.cancel) }`: once the predicate has been asked in
+				// such a statement the channel is closed on both outcomes
+				closeOnceIf := func(st ast.Node) *ast.CallExpr {
+					ifs, ok := st.(*ast.IfStmt)
+					if !ok || ifs.Else != nil || len(ifs.Body.List) != 1 {
+						return nil
+					}
+					is, neg := c.callsCancelPredicate(info, ifs.Cond, cancel)
+					if !is || !neg {
+						return nil
+					}
+					es, ok := ifs.Body.List[0].(*ast.ExprStmt)
+					if !ok {
+						return nil
+					}
+					call, ok := es.X.(*ast.CallExpr)
+					if ok && isBuiltinCall(info, call, "close") && len(call.Args) == 1 && core.FieldOf(info, call.Args[0]) == cancel {
+						pc, _ := ast.Unparen(ifs.Cond).(*ast.UnaryExpr)
+						if pc != nil {
+							if inner, ok := ast.Unparen(pc.X).(*ast.CallExpr); ok {
+								return inner
+							}
+						}
+					}
+					return nil
+				}
+				predCalls := map[ast.Node]bool{}
+				f.OwnNodes(func(n ast.Node) bool {
+					if pcall := closeOnceIf(n); pcall != nil {
+						predCalls[pcall] = true
+					}
+					return true
+				})
 				closed := fl.MustSeen(false, func(n ast.Node) bool {
 					call, ok := n.(*ast.CallExpr)
 					if !ok {
 						return false
+					}
+					if predCalls[call] {
+						return true
 					}
 					if isBuiltinCall(info, call, "close") && len(call.Args) == 1 && core.FieldOf(info, call.Args[0]) == cancel {
 						return true
@@ -329,6 +366,9 @@ func ruleCC7() Rule {
 						if call, ok := es.X.(*ast.CallExpr); ok && closesAlways(call) {
 							viaHelper = true
 						}
+					}
+					if closeOnceIf(last) != nil {
+						viaHelper = true
 					}
 					if sel[last] || viaHelper {
 						rr.OK(f, key, last.Pos(), "select-close", "the function ends with the select that closes the cancel channel unless it is already closed")
@@ -538,7 +578,7 @@ func ruleLX(parts ...string) Rule {
 		Run: func(c *Ctx, rr *core.RuleResult) {
 			var hd *core.Func
 			if want["HD5"] || want["HD1b"] || want["PO1"] {
-				hd = c.mustFn(rr, "parser.(*lexer).lexHeredoc")
+				hd = c.heredocReader(rr)
 			}
 			if hd != nil {
 				info := hd.Info()
@@ -1260,6 +1300,10 @@ func ruleER1() Rule {
 				}
 				recorded := func(gs []guard) bool {
 					for _, g := range gs {
+						// the slot holds a syntax error (clause `case Error:` of a type switch on it)
+						if g.pos && isSlotSyntaxAssert(info, g.cond, errF) {
+							return true
+						}
 						be, ok := ast.Unparen(g.cond).(*ast.BinaryExpr)
 						if !ok || core.FieldOf(info, be.X) != errF || !isNilIdent(info, be.Y) {
 							continue
@@ -1481,6 +1525,64 @@ func ruleCC10(pkgs ...string) Rule {
 							} else if k != cc {
 								blockingOther = true
 							}
+						}
+						if cancelPredicate(f.Root(), cancel) {
+							// the question "already cancelled?" as a function: what matters is what the callers do with the answer
+							okUse, badUse := 0, 0
+							var badPos token.Pos
+							calls, complete := c.callSitesOf(f.Root())
+							for _, cs := range calls {
+								ci := cs.in.Info()
+								use := "other"
+								for p := c.P.Parent(cs.call); p != nil; p = c.P.Parent(p) {
+									ifs, isIf := p.(*ast.IfStmt)
+									if !isIf {
+										if _, isStmt := p.(ast.Stmt); isStmt {
+											break
+										}
+										continue
+									}
+									is, neg := c.callsCancelPredicate(ci, ifs.Cond, cancel)
+									if !is || ifs.Else != nil {
+										break
+									}
+									if neg && len(ifs.Body.List) == 1 {
+										if es, ok := ifs.Body.List[0].(*ast.ExprStmt); ok {
+											if cl, ok := es.X.(*ast.CallExpr); ok && isBuiltinCall(ci, cl, "close") {
+												use = "close-once"
+											}
+										}
+									}
+									if !neg && endsInPanicOrReturn(ci, ifs.Body.List) {
+										// a pre-test: the next statement must be the hand-over select with the same bail-out
+										if blk, ok := c.P.Parent(ifs).(*ast.BlockStmt); ok {
+											if i := stmtIndex(c.P, blk.List, ifs); i >= 0 && i+1 < len(blk.List) {
+												if next, ok := blk.List[i+1].(*ast.SelectStmt); ok {
+													for _, st := range next.Body.List {
+														k := st.(*ast.CommClause)
+														if k.Comm != nil && recvFrom(ci, k.Comm, cancel) && endsInPanicOrReturn(ci, k.Body) {
+															use = "pre-test"
+														}
+													}
+												}
+											}
+										}
+									}
+									break
+								}
+								if use == "other" {
+									badUse++
+									badPos = cs.call.Pos()
+								} else {
+									okUse++
+								}
+							}
+							if complete && badUse == 0 && okUse > 0 {
+								rr.OK(f, key, u.Pos(), "predicate", fmt.Sprintf("asks whether cancel is closed; its %d callers use the answer only to close it once or as the pre-test of the hand-over", okUse))
+							} else {
+								rr.Badp(c.P, key, badPos, "the cancel channel is polled through a predicate and the answer steers the lexer elsewhere than in the close-once idiom or the hand-over's pre-test: the outcome depends on when the parser cancelled")
+							}
+							return true
 						}
 						switch {
 						case dflt == nil && blockingOther:
@@ -1791,7 +1893,7 @@ func initOfEnclosingIfs(p *core.Program, n ast.Node, stop ast.Node) bool { retur
 // NL2: what the creator takes back from a nested lexer was given to it.
 
 func ruleNL2() Rule {
-	return Rule{ID: "NL2", Kind: "must", Floor: 3,
+	return Rule{ID: "NL2", Kind: "must", Floor: 2,
 		Doc: "every scalar field the creator copies back from a nested lexer after a successful nested parse (`l.f = ll.f`) is initialised in the nested lexer's literal from the creator's own field: a field left at its zero value and only conditionally recomputed (the position, which mark() leaves alone while alias text is being read) would come back as zero - and a zero position means `absent` to the grammar actions, so the `&` or `!` after a command substitution inside an alias value is lost",
 		Run: func(c *Ctx, rr *core.RuleResult) {
 			f := c.mustFn(rr, "parser.(*lexer).scanCmdSubst")
@@ -1900,6 +2002,7 @@ func ruleHD7() Rule {
 				key := t.Name + "|pending here-document at the end"
 				// a test of exists() after the last loop of the root's body, guarding a call that reaches the error recorder
 				ok := false
+				extra := ""
 				lastLoop := -1
 				for i, st := range t.Body.List {
 					if _, isFor := st.(*ast.ForStmt); isFor {
@@ -1912,17 +2015,220 @@ func ruleHD7() Rule {
 						continue
 					}
 					if ifs, isIf := st.(*ast.IfStmt); isIf && c.callsFunc(info, ifs.Cond, exists) && errFn != nil && c.callsFunc(info, ifs.Body, errFn) {
-						ok = true
+						// no further condition: a nested lexer stops at its closing `)` without reaching
+						// end of input, a test of an eof flag would exempt `$(cat <<E)`
+						if _, isCall := ast.Unparen(ifs.Cond).(*ast.CallExpr); isCall {
+							ok = true
+						} else {
+							extra = exprStr(ifs.Cond)
+						}
 					}
 				}
 				if ok {
 					rr.OK(t, key, t.Pos(), "tested", "a here-document still announced when the state machine stops is reported")
+				} else if extra != "" {
+					rr.Bad(t, key, t.Pos(), "the test for a pending here-document has a further condition (`"+extra+"`): where it does not hold - the nested lexer of `$(cat <<E)` stops at the `)` - the redirection is accepted without a body")
 				} else {
 					rr.Bad(t, key, t.Pos(), "the root never tests heredoc.exists() after its state machine has stopped: input ending right after `<<E` (no newline) is accepted with a nil error, the redirection keeps a nil body")
 				}
 			}
 			if n == 0 {
 				rr.Unkp(c.P, "parser|goroutine root", 0, "no goroutine root in package parser")
+			}
+		}}
+}
+
+// ---------------------------------------------------------------------------
+// HD8 / LB2: what linebreak() may and may not swallow.
+
+func ruleLBK() Rule {
+	return Rule{ID: "LBK", Kind: "must", Floor: 2,
+		Doc: "linebreak(), which the lexer calls where the grammar allows `linebreak` after a token (`&&`, `||`, `|`, `;;`, `in`, `)` of a case item …): (HD8) when it consumes a newline while a here-document is announced it hands over to the body reader - the body starts right after that newline, so `cat <<E &&` + newline + body must not read the body as commands; (LB2) it skips blanks before the newline like the token scanner does - `a && ` + newline + `b` is the same program as `a &&` + newline + `b`",
+		Run: func(c *Ctx, rr *core.RuleResult) {
+			f := c.mustFn(rr, "parser.(*lexer).linebreak")
+			if f == nil {
+				return
+			}
+			info := f.Info()
+			exists := c.fn("parser.(*heredoc).exists")
+			// the switch over the rune just read
+			var sw *swInfo
+			for _, s := range switches(c.P, f) {
+				if s.clauseFor('\n') != nil && s.parent == nil {
+					sw = s
+				}
+			}
+			if sw == nil {
+				rr.Unk(f, f.Name+"|rune switch", f.Pos(), "no switch over the rune with a newline case found")
+				return
+			}
+			nl := sw.clauseFor('\n')
+			// HD8
+			key := f.Name + "|newline with a here-document announced"
+			hands := false
+			ast.Inspect(nl.cc, func(x ast.Node) bool {
+				if ifs, ok := x.(*ast.IfStmt); ok && exists != nil && c.callsFunc(info, ifs.Cond, exists) {
+					hands = true
+				}
+				return true
+			})
+			if hands {
+				rr.OK(f, key, nl.cc.Pos(), "hands-over", "the newline case tests heredoc.exists() and lets the bodies be read")
+			} else {
+				rr.Bad(f, key, nl.cc.Pos(), "linebreak consumes the newline without asking whether a here-document is announced: for `cat <<E &&` followed by a newline the body lines are parsed as commands and the body attached later is wrong (`cat <<E && body`)")
+			}
+			// LB2
+			key = f.Name + "|blanks before the newline"
+			sp, tab := sw.clauseFor(' '), sw.clauseFor('\t')
+			if sp != nil && tab != nil {
+				rr.OK(f, key, sp.cc.Pos(), "skipped", "blanks have their own case")
+			} else {
+				rr.Bad(f, key, sw.sw.Pos(), "a blank is handled by the default arm, which pushes it back and reports that no newline follows: `a && ` + newline + `b` is rejected with `unexpected EOF` although blanks between tokens are inert")
+			}
+		}}
+}
+
+// ---------------------------------------------------------------------------
+// EF8: the nested lexer's error decides whether the substitution succeeded.
+
+func ruleEF8() Rule {
+	return Rule{ID: "EF8", Kind: "must", Floor: 1,
+		Doc: "in scanCmdSubst every successful return (and the merge of the nested lexer's results) is reached only with the nested lexer's error slot tested nil: an error recorded only there - a reader fault on a look-ahead the nested parser never needed - must not be dropped because the nested parse was accepted",
+		Run: func(c *Ctx, rr *core.RuleResult) {
+			f := c.mustFn(rr, "parser.(*lexer).scanCmdSubst")
+			if f == nil {
+				return
+			}
+			info := f.Info()
+			errF := c.fieldVar("parser", "lexer", "err")
+			n := 0
+			f.OwnNodes(func(x ast.Node) bool {
+				r, ok := x.(*ast.ReturnStmt)
+				if !ok || len(r.Results) != 1 {
+					return true
+				}
+				if tv, has := info.Types[r.Results[0]]; !has || tv.Value == nil || tv.Value.String() != "true" {
+					return true
+				}
+				n++
+				key := fmt.Sprintf("%s|success only with the nested error slot empty #%d", f.Name, n)
+				ok = false
+				for _, g := range guardsOf(c.P, r, nil) {
+					be, isBE := ast.Unparen(g.cond).(*ast.BinaryExpr)
+					if !isBE || !g.pos || be.Op != token.EQL || core.FieldOf(info, be.X) != errF || !isNilIdent(info, be.Y) {
+						continue
+					}
+					// the slot of the nested lexer, not the receiver's
+					if se, isSel := ast.Unparen(be.X).(*ast.SelectorExpr); isSel {
+						if id, isID := ast.Unparen(se.X).(*ast.Ident); isID && !isRecv(f, info.Uses[id]) {
+							ok = true
+						}
+					}
+				}
+				if ok {
+					rr.OK(f, key, r.Pos(), "tested", "reached only when the nested lexer recorded no error")
+				} else {
+					rr.Bad(f, key, r.Pos(), "the substitution is reported as scanned without the nested lexer's error slot having been tested nil on this path: a reader error recorded only by the nested lexer is lost and ParseCommands returns a tree with a nil error")
+				}
+				return true
+			})
+			if n == 0 {
+				rr.Unk(f, f.Name+"|success return", f.Pos(), "scanCmdSubst has no `return true`")
+			}
+		}}
+}
+
+// ---------------------------------------------------------------------------
+// PP1: what counts as a positional parameter is decided by spelling alone.
+
+func rulePP1() Rule {
+	return Rule{ID: "PP1", Kind: "must-not", Floor: 1,
+		Doc: "isPosParam decides from the characters of the name only; its result does not depend on a numeric conversion succeeding: a name made of digits that overflows int is still a positional parameter (unset, not assignable), not an ordinary variable",
+		Run: func(c *Ctx, rr *core.RuleResult) {
+			f := c.mustFn(rr, "interp.(*ExecEnv).isPosParam")
+			if f == nil {
+				return
+			}
+			bad := false
+			// everything the predicate can call in its own package
+			var scope []*core.Func
+			for g := range c.P.CG().Reachable(f) {
+				if g.Pkg == f.Pkg && !g.Generated {
+					scope = append(scope, g)
+				}
+			}
+			sort.Slice(scope, func(i, j int) bool { return scope[i].Name < scope[j].Name })
+			visit := func(g *core.Func, x ast.Node) bool {
+				call, ok := x.(*ast.CallExpr)
+				if !ok {
+					return true
+				}
+				name := calleeName(g.Info(), call)
+				if strings.HasPrefix(name, "strconv.Atoi") || strings.HasPrefix(name, "strconv.Parse") {
+					// is the error result used?
+					if as, isAs := c.P.Parent(call).(*ast.AssignStmt); isAs && len(as.Lhs) == 2 {
+						if id, isID := as.Lhs[1].(*ast.Ident); isID && id.Name != "_" {
+							bad = true
+							rr.Bad(g, f.Name+"|decided by spelling", call.Pos(), "whether a name is a positional parameter depends on "+name+" succeeding: a digit string that overflows int (99999999999999999999) is treated as an ordinary variable - Set stores it and ${99999999999999999999:=w} assigns")
+						}
+					}
+				}
+				return true
+			}
+			for _, g := range scope {
+				g := g
+				g.OwnNodes(func(x ast.Node) bool { return visit(g, x) })
+			}
+			if !bad {
+				rr.OK(f, f.Name+"|decided by spelling", f.Pos(), "character-test", "no numeric conversion decides the predicate")
+			}
+		}}
+}
+
+// ---------------------------------------------------------------------------
+// BR4: field splitting looks at characters, not bytes.
+
+func ruleBR4() Rule {
+	return Rule{ID: "BR4", Kind: "must-not", Floor: 1,
+		Doc: "split never tests a single byte of the text for membership in IFS (strings.IndexByte(ifs, s[j]), ifs containing byte(s[j])): one byte of a multi-byte character can equal a byte of a multi-byte IFS character, so characters would be cut in the middle",
+		Run: func(c *Ctx, rr *core.RuleResult) {
+			f := c.mustFn(rr, "interp.(*ExecEnv).split")
+			if f == nil {
+				return
+			}
+			bad := false
+			c.regionNodes(f, func(g *core.Func, x ast.Node) bool {
+				info := g.Info()
+				call, ok := x.(*ast.CallExpr)
+				if !ok {
+					return true
+				}
+				name := calleeName(info, call)
+				switch name {
+				case "strings.IndexByte", "strings.LastIndexByte", "bytes.IndexByte":
+				default:
+					return true
+				}
+				if len(call.Args) != 2 {
+					return true
+				}
+				// the needle is a byte taken from a string by indexing, directly or through a local
+				needle := ast.Unparen(call.Args[1])
+				if id, isID := needle.(*ast.Ident); isID {
+					if d := localDef(g, info, info.Uses[id]); d != nil {
+						needle = ast.Unparen(d)
+					}
+				}
+				if ix, isIx := needle.(*ast.IndexExpr); isIx {
+					if t := info.Types[ix.X].Type; t != nil && t.Underlying().String() == "string" {
+						bad = true
+						rr.Bad(g, f.Name+"|membership by character", call.Pos(), "a single byte of the text (`"+exprStr(ix)+"`) is looked up in the delimiter set: with IFS `、` the text `あ、い` is cut inside its characters")
+					}
+				}
+				return true
+			})
+			if !bad {
+				rr.OK(f, f.Name+"|membership by character", f.Pos(), "rune-wise", "no byte-wise membership test")
 			}
 		}}
 }
